@@ -82,7 +82,9 @@ def gen_replay(acc, wd, name, n, minlen, msk, simulate=None, workers=4, timeout=
     log = os.path.join(wd, name + '.tlc.log')
     nt = os.path.join(wd, name + '.nontrivial')
     e = dict(os.environ)
-    e['JAVA_TOOL_OPTIONS'] = '-Xss1g -Dtlc2.tool.queue.IStateQueue=StateDeque'
+    jtmp = os.path.join(wd, 'jtmp')
+    os.makedirs(jtmp, exist_ok=True)
+    e['JAVA_TOOL_OPTIONS'] = '-Xss1g -Dtlc2.tool.queue.IStateQueue=StateDeque -Djava.io.tmpdir=' + jtmp
     e.update({'N': str(n), 'MINLEN': str(minlen), 'MASK': str(msk)})
     cmd = ['timeout', str(timeout), 'java', '-XX:+UseParallelGC', '-Xmx' + heap, '-cp', vlib.TLA_JAR, 'tlc2.TLC',
            '-workers', str(workers), '-metadir', os.path.join(wd, 'meta-' + name), '-cleanup', '-noGenerateSpecTE', '-checkpoint', '0',
